@@ -282,6 +282,37 @@ func runC11(p *core.Prog, r *core.Report) {
 	if n4 < 2 {
 		r.Fatalf("C11.R4: %d overflow idioms found in pkg/services/object, expected 2", n4)
 	}
+	// ---------------- R7 the streaming decoder reads from bytes nobody else writes
+	r7 := r.Rule("C11.R7", "the bytes handed to a streaming zstd decoder as the head of its input are a private copy, never a view of a caller's buffer: the decoder reads ahead lazily while the caller's buffer is refilled with the decoded head", 1)
+	nDec := 0
+	for _, fn := range p.FuncsIn("pkg/local_object_storage/blobstor/fstree") {
+		decs := core.CallSites([]*ssa.Function{fn}, func(s core.Site) bool { return s.Name == "github.com/klauspost/compress/zstd.NewReader" })
+		if len(decs) == 0 {
+			continue
+		}
+		nDec += len(decs)
+		n := 0
+		for _, cs := range core.CallSites([]*ssa.Function{fn}, func(s core.Site) bool { return s.Name == "bytes.NewReader" || s.Name == "bytes.NewBuffer" }) {
+			c, ok := cs.Call.(*ssa.Call)
+			if !ok || !feedsCall(c, "github.com/klauspost/compress/zstd.NewReader", 8, map[ssa.Value]bool{}) {
+				continue
+			}
+			n++
+			arg := c.Call.Args[0]
+			r7.Check(core.RootParam(fn, arg) < 0, core.FuncName(fn)+"#decoder-input", p.InstrPos(c), "the decoder's head input is a fresh copy",
+				"the streaming decoder reads its first bytes straight from a caller's buffer ("+arg.Name()+"): the decoder consumes its input lazily, so refilling that buffer with decoded data corrupts the compressed blocks not yet consumed and the range read fails or returns wrong bytes")
+		}
+		if n == 0 {
+			// decoder reading the file only: nothing shared
+			r7.Check(true, core.FuncName(fn)+"#decoder-input", p.Pos(fn.Pos()), "the decoder reads from the file only", "")
+		}
+	}
+	if nDec == 0 {
+		r.Fatalf("C11.R7: no streaming decoder found in fstree")
+	}
+	// ---------------- R8 the two readings of 'the whole payload' agree
+	r8 := r.Rule("C11.R8", "a range that PayloadRange.IsFull calls the whole payload (served as a plain read by ReadObjectParts and the GET service) is never refused by PayloadRange.Resolve (used by the resolving readers): in the cases of those modes Resolve answers out-of-range only after finding the first position non-zero", 2)
+	fullRangeNeverRefused(p, r, r8)
 	// ---------------- R6 a stream cut out of a combined file never runs into the next entry
 	r6 := r.Rule("C11.R6", "readHeader: the stream returned for an entry found in a combined file is always the length-limited reader, never the bare file (which continues with other objects)", 1)
 	if rh := p.Func("(*pkg/local_object_storage/blobstor/fstree.FSTree).readHeader"); rh == nil {
@@ -463,4 +494,137 @@ func nonZeroByDisequality(fn *ssa.Function, in ssa.Instruction, rem *ssa.BinOp) 
 	}}
 	gf := core.Flow(fn, []core.Guard{g})
 	return gf.Passed(gf.At(in), 0)
+}
+
+// feedsCall: v reaches an argument of a call to target, through interface conversions, variadic packing and
+// reader-wrapping calls (each wrapper's result stands for its arguments).
+func feedsCall(v ssa.Value, target string, depth int, seen map[ssa.Value]bool) bool {
+	if depth == 0 || seen[v] || v.Referrers() == nil {
+		return false
+	}
+	seen[v] = true
+	for _, u := range *v.Referrers() {
+		switch x := u.(type) {
+		case *ssa.Call:
+			if core.CalleeName(x) == target {
+				return true
+			}
+			if feedsCall(x, target, depth-1, seen) {
+				return true
+			}
+		case *ssa.MakeInterface, *ssa.ChangeInterface, *ssa.ChangeType, *ssa.Slice, *ssa.Phi:
+			if feedsCall(x.(ssa.Value), target, depth-1, seen) {
+				return true
+			}
+		case *ssa.Store:
+			if x.Val != v {
+				continue
+			}
+			// varargs: stored into an element of a local array that is then sliced
+			if ia, ok := x.Addr.(*ssa.IndexAddr); ok {
+				if feedsCall(ia.X, target, depth-1, seen) {
+					return true
+				}
+			} else if feedsCall(x.Addr, target, depth-1, seen) {
+				return true
+			}
+		}
+	}
+	return false
+}
+
+// fullRangeNeverRefused: modes for which IsFull can answer true are read off IsFull itself; in Resolve every
+// out-of-range return inside the case of such a mode must be dominated by 'First != 0'.
+func fullRangeNeverRefused(p *core.Prog, r *core.Report, h *core.RuleH) {
+	const prT = "(pkg/local_object_storage/blobstor/common.PayloadRange)"
+	isFull, res := p.Func(prT+".IsFull"), p.Func(prT+".Resolve")
+	if isFull == nil || res == nil {
+		r.Fatalf("C11.R8: PayloadRange.IsFull / Resolve not found")
+		return
+	}
+	fieldOf := func(v ssa.Value) string {
+		u, ok := v.(*ssa.UnOp)
+		if !ok || u.Op != token.MUL {
+			return ""
+		}
+		fa, ok := u.X.(*ssa.FieldAddr)
+		if !ok {
+			return ""
+		}
+		n := core.FieldAddrName(fa)
+		return n[strings.LastIndex(n, ".")+1:]
+	}
+	// mode case a block belongs to: the true edge of `Mode == k`
+	modeOf := func(fn *ssa.Function, b *ssa.BasicBlock) (int64, bool) {
+		for _, blk := range fn.Blocks {
+			for _, in := range blk.Instrs {
+				bo, ok := in.(*ssa.BinOp)
+				if !ok || bo.Op != token.EQL || fieldOf(bo.X) != "Mode" {
+					continue
+				}
+				if k, isK := intConstOf(bo.Y); isK && branchDominates(bo, true, b) {
+					return k, true
+				}
+			}
+		}
+		return 0, false
+	}
+	full := map[int64]bool{}
+	for _, b := range isFull.Blocks {
+		ret, ok := b.Instrs[len(b.Instrs)-1].(*ssa.Return)
+		if !ok || len(ret.Results) != 1 {
+			continue
+		}
+		if c, isC := ret.Results[0].(*ssa.Const); isC {
+			if bv, isB := constBool(c); isB && !bv {
+				continue
+			}
+		}
+		// the value may come through a phi of the short-circuit: take the case of every predecessor chain
+		if k, okM := modeOf(isFull, b); okM {
+			full[k] = true
+			continue
+		}
+		for _, blk := range isFull.Blocks {
+			if k, okM := modeOf(isFull, blk); okM && reaches(blk, b) {
+				full[k] = true
+			}
+		}
+	}
+	if len(full) == 0 {
+		r.Fatalf("C11.R8: IsFull never answers true")
+		return
+	}
+	nonZero := []core.Guard{
+		{Name: "first-nonzero(ne-form)", Comps: []core.Comp{{Result: -1, Kind: core.IsTrue}}, Value: func(_ *ssa.Function, v ssa.Value) bool {
+			bo, ok := v.(*ssa.BinOp)
+			k, isK := intConstOf(bo0(bo, ok))
+			return ok && bo.Op == token.NEQ && fieldOf(bo.X) == "First" && isK && k == 0
+		}},
+		{Name: "first-nonzero(eq-form)", Comps: []core.Comp{{Result: -1, Kind: core.IsFalse}}, Value: func(_ *ssa.Function, v ssa.Value) bool {
+			bo, ok := v.(*ssa.BinOp)
+			k, isK := intConstOf(bo0(bo, ok))
+			return ok && bo.Op == token.EQL && fieldOf(bo.X) == "First" && isK && k == 0
+		}},
+	}
+	core.CheckEffectsFn(p, h, res, core.EffectRule{Min: len(full), Guards: nonZero,
+		Derived: []core.Derived{{Name: "not-the-whole-payload", Alts: [][]string{{"first-nonzero(ne-form)"}, {"first-nonzero(eq-form)"}}}},
+		Effect: func(_ *core.Prog, in ssa.Instruction) (string, bool) {
+			ret, ok := in.(*ssa.Return)
+			if !ok || len(ret.Results) != 3 || !strings.HasSuffix(core.ErrTargetName(ret.Results[2]), "ErrObjectOutOfRange") {
+				return "", false
+			}
+			k, okM := modeOf(res, ret.Block())
+			if !okM || !full[k] {
+				return "", false
+			}
+			return fmt.Sprintf("out-of-range@mode%d", k), true
+		}, Need: func(string) []string { return []string{"not-the-whole-payload"} }})
+}
+
+func bo0(bo *ssa.BinOp, ok bool) ssa.Value {
+	if !ok {
+		return nil
+	}
+	return bo.Y
 }
